@@ -380,6 +380,30 @@ def run(ctx):
         first_corr = first_corr or fc
         if len(ctx.violations) >= 3:
             break
+    # -B (buffer the diagnostics, print them sorted by line): the same diagnostics, each on a line of its own, the same exit status
+    # and the same other lines as without -B
+    if not ctx.violations:
+        bc = sweep + [c for lab, cs in streams if lab == "generated" for c in cs][:(25 if quick else 400)]
+        wsw = [("i", "downcast")]                       # any switch turns the class-less warnings on
+        ra = X.run_many(b, [("check-express", c, wsw) for c in bc], ctx.work)
+        rb = X.run_many(b, [("check-express", c, [("B", None)] + wsw) for c in bc], ctx.work)
+        for c, x, y in zip(bc, ra, rb):
+            oa, obf = observed(x, table), observed(y, table)
+            ctx.count(1, key=(c.cls, c.data, "-B"))
+            if oa["status"] in ("abort", "timeout") or oa["status"].startswith("signal"):
+                continue
+            da, db = sorted(map(str, oa["diags"])), sorted(map(str, obf["diags"]))
+            if oa["status"] != obf["status"] or da != db or sorted(oa["other"]) != sorted(obf["other"]):
+                only_a = [d for d in oa["diags"] if str(d) not in db][:2]
+                only_b = [d for d in obf["diags"] if str(d) not in da][:2]
+                ctx.violation("buffered-output-differs",
+                              f"`check-express -B -i downcast {c.path()}` exits {obf['status']} and prints {len(obf['diags'])} diagnostics, other lines "
+                              f"{obf['other'][:3]}; without -B: exit {oa['status']}, {len(oa['diags'])} diagnostics, other lines {oa['other'][:3]}; "
+                              f"only without -B: {only_a}; only with -B: {only_b}",
+                              {"input_file": c.path(), "input_text": c.data.decode("latin-1"), "input_hex": c.data.hex(),
+                               "command": f"check-express -B -i downcast {c.path()}", "switches": [["B", None], ["i", "downcast"]],
+                               "injected": {"class": c.cls, "expect": c.expect, "note": c.note}})
+                break
     # unknown class: usage + exit 2, nothing about the file
     mc = X.Case("u", b"SCHEMA s;\nEND_SCHEMA;\n", [], "valid", [], "accept")
     r = X.run_tool(b, "check-express", mc, [("w", "no_such_class")], ctx.work)
